@@ -196,7 +196,7 @@ PROPS = {
              "reversed; single- and multi-packet PMTs; re-listed programs repeating their PMT; a network (program_number 0) entry in a "
              "fifth; after every step one probe packet on every PID of interest; every 23rd history shares an elementary PID between "
              "two programs (finding F7) and every 23rd lets a PID migrate from one program to another (never listed by both at once); the routing the latest valid tables call for is recomputed from the transmitted tables and "
-             "compared with the request each probe's handler was built from; distinct = distinct case lines",
+             "compared with the request each probe's handler was built from; distinct = distinct case lines every 23rd history ends with a program map listing its own PID (the later table application decides a PID with two roles)",
         trusted=["harness/src/suites/hist.rs (history generator and its annotations)", "bin/trace.py history_judge (ideal routing table; known-class predicates F2 / F7 / F8)"],
         assumptions=["single-section tables marked current; one table per PID (current_next_indicator and section_number are ignored by the processors)"],
     ),
@@ -256,7 +256,7 @@ PROPS = {
         rule="random packet sequences over 2..6 PIDs drawn from {1, 0x10, 0x11, 0x1ffe, 0x1fff} and random PIDs, runs of 1..12 "
              "same-PID packets, 15% flagged packets (TEI, scrambling 01/10/11, both), bad sync bytes in a third of the streams, random "
              "packet-aligned push boundaries, a quarter of the cases with scripted (change-queuing) handlers; thorough adds one packet "
-             "on each of the 8191 non-zero PIDs in both orders; distinct = distinct case lines",
+             "on each of the 8191 non-zero PIDs in both orders; distinct = distinct case lines PID pools contain PIDs at Hamming distance 1 from one another; plus table-driven registrations colliding with the tables' own PIDs (judged by the model only)",
         trusted=["bin/trace.py dispatch_reference: the per-packet dispatcher specification recomputed in Python on the input (classifies disagreements only)"],
         assumptions=["application handlers and construct() do not touch the change-set except as scripted", "PID 0 traffic (PAT semantics) is exercised by the table suites, not here"],
     ),
@@ -268,7 +268,7 @@ PROPS = {
         judge=judge_dispatch,
         rule="as C06 but every case has 1..3 scripted handlers whose n-th packet queues 0..3 insert/remove requests (any PID incl. "
              "their own, recorder / PES / scripted replacements, repeated targets), over packet sequences with long same-PID runs; "
-             "distinct = distinct case lines",
+             "distinct = distinct case lines plus single invocations queueing 255..513 requests (inserts then removes, many for one PID, alternating)",
         trusted=["bin/trace.py dispatch_reference (folds the scripts over the table; classifies disagreements only)"],
         assumptions=["handlers queue changes only while consuming a packet"],
     ),
@@ -310,7 +310,7 @@ PROPS = {
         rule="every word up to length 3 (thorough 4) over 30 packet classes (unit start x payload presence AFC 01/11/10 x counter "
              "relation successor/equal/other x PES header recognisable or not) from the initial filter state; all 16x16 counter "
              "pairs x payload/none x unit-start from each of the three filter states; random words of length 4..30 with deep "
-             "header observation; loss / duplication / reordering mutants of clean streams; distinct = distinct case lines",
+             "header observation; loss / duplication / reordering mutants of clean streams; distinct = distinct case lines adaptation fields carry the discontinuity / priority / random-access flags at random",
         trusted=["call-back protocol of the ElementaryStreamConsumer trait documentation as transcribed in coq/Spec/EsProtocol.v",
                  "bin/trace.py: run-time monitor evaluated on the implementation's trace (classifies disagreements only)"],
         assumptions=["packets handed to the filter are 188 bytes with a sync byte (Packet::new's precondition)"],
@@ -323,7 +323,7 @@ PROPS = {
         judge=judge_pesf,
         rule="same suite as C08 (exhaustive 16 x 16 counter pairs x payload/no-payload x unit-start from every filter state; "
              "all short words over the packet classes; loss/duplication/reordering mutants); the predicate evaluated on the "
-             "implementation's trace is the iff of C09_iff recomputed from the packets by an independent packet reader",
+             "implementation's trace is the iff of C09_iff recomputed from the packets by an independent packet reader adaptation fields carry the discontinuity / priority / random-access flags at random",
         trusted=["13818-1 2.4.3.3 continuity_counter semantics as transcribed in coq/Spec/EsProtocol.v (expected_cc)",
                  "bin/trace.py: run-time predicate evaluated on the implementation's trace (classifies disagreements only)"],
         assumptions=["'previous packet delivered' means delivered to this filter: packets with transport_error_indicator or scrambling never reach it (C06)"],
@@ -335,7 +335,7 @@ PROPS = {
         rule="PAT: every body length 0..=1012 with random entries (program_number 0 in a fifth of them, reserved bits either "
              "way); PMT: every body length 0..=1012 with program_info_length in {0, fit-1, fit, fit+1, 4095, random} and the first "
              "ES_info_length steered the same way; builder-made PMTs with typed descriptors, 0..5 streams, random tails and "
-             "truncation; distinct = distinct case lines; every accessor of every entry is evaluated",
+             "truncation; distinct = distinct case lines; every accessor of every entry is evaluated builder-made PMTs also with entries related to one another (same PID again with the same or another type, same type again, PCR PID among the streams)",
         trusted=["13818-1 Tables 2-30 and 2-33 as transcribed in coq/Spec/TablesSpec.v"],
         assumptions=["input bytes are < 256"],
     ),
@@ -346,7 +346,7 @@ PROPS = {
         rule="all 256 tags x payload lengths 0..=6; payload lengths 0..=255 for each typed descriptor (registration, ISO-639 with "
              "audio types steered to 0..5, maximum bitrate, AVC); exhaustive loops over (tag class in {5,10,14,40,0,200}, length in "
              "{0,1,3,4,5}) sequences up to total length 10 (thorough 14) with truncated and over-long tails; random loops of up to 5 "
-             "descriptors with random tails / truncation; distinct = distinct case lines, every accessor of every item is evaluated",
+             "descriptors with random tails / truncation; distinct = distinct case lines, every accessor of every item is evaluated plus the AVC descriptor over the profile_idc / level_idc values H.264 defines x flags bytes, and boundary values of the maximum-bitrate field",
         trusted=["13818-1 2.6 (Table 2-45 and the typed descriptors' syntax) as transcribed in coq/Spec/DescriptorSpec.v",
                  "encoding_rs::mem::decode_latin1 modelled as the identity on code points; smptera FormatIdentifier as its 4 bytes"],
         assumptions=["input bytes are < 256", "typed descriptors' buffers are private: tag and payload offset are observed only for UnknownDescriptor and through additional_identification_info()"],
@@ -360,7 +360,7 @@ PROPS = {
              "Annex A register (not the table model); gate: PAT/PMT installs handlers, then the next version of the PAT or PMT "
              "arrives damaged (every single bit for sections <= 80 bytes, sampled bit pairs, bursts of 2..32 bits, random byte "
              "damage; single- and multi-packet), then probe packets on every PID of interest; also the applied table itself re-sent with "
-             "another version_number, damaged body and its old CRC_32 field; distinct = distinct case lines",
+             "another version_number, damaged body and its old CRC_32 field; distinct = distinct case lines also: next-version tables whose CRC_32 field holds a meaningful wrong value (zero, all ones, copies of section bytes, complemented / byte-swapped / offset CRC); and three-step histories (applied table; something that makes the de-duplication layer forget it; the table again with only body bytes damaged)",
         trusted=["ISO/IEC 13818-1 Annex A decoder model as transcribed in coq/Spec/CrcSpec.v",
                  "CRC table and preset are copied from the source by bin/gen_tables.py on every run; the table proof is re-checked against them"],
         assumptions=["input bytes are < 256", "the CRC gate is stated for the normal build; under cfg(fuzzing) the comparison is bypassed by design"],
@@ -374,7 +374,7 @@ PROPS = {
              "PES_header_data_length in {0, need-1, need, need+1, need+3, 255} x buffer length in {end-2..end+1, end+30} x marker bits "
              "set/random; all 256 values of the first optional-header byte; all 256 trick-mode bytes at each of the 8 positions the "
              "preceding flags imply; PesParsedContents::from_bytes on steered buffers; random short buffers; distinct = distinct "
-             "case lines, every one evaluates every accessor of whatever is returned",
+             "case lines, every one evaluates every accessor of whatever is returned plus PES_packet_length steered around the bytes available (0, 1, avail-1, avail, avail+1, 0xffff) for every stream id; PTS/DTS equal, one tick apart, across the wrap",
         trusted=["13818-1 Table 2-21 / 2.4.3.7 as transcribed in coq/Spec/PesSpec.v"],
         assumptions=["input bytes are < 256", "StreamId has no numeric accessor: its value is recovered from equality with the public constants and its Debug rendering",
                      "PesExtension is opaque in the crate: only presence is observed"],
@@ -408,7 +408,7 @@ PROPS = {
         exhaustive=True,
         rule="exhaustive over header bytes (b1,b2) and over (b3, adaptation_field_length), all 256 sync-byte values; "
              "remaining bytes random from VERIF_SEED; distinct = distinct case lines; every case is non-trivial "
-             "(each exercises all header accessors, the payload split and the adaptation-field range fingerprint)",
+             "(each exercises all header accessors, the payload split and the adaptation-field range fingerprint) plus the PIDs with a meaning of their own (0, 1, 2, 0x10, 0x11, 0x1ffb, 0x1ffe, 0x1fff) x every header byte 3 x boundary adaptation_field_lengths",
         trusted=["ISO/IEC 13818-1 2.4.3.2 header layout as transcribed in coq/Spec/PacketSpec.v"],
         assumptions=["input bytes are < 256 (true of every u8)", "AdaptationField exposes no raw-bytes accessor: its range is observed through transport_private_data() probes (range fingerprint)"],
     ),
